@@ -41,10 +41,33 @@ pub fn directives(root: &SyntaxNode) -> Vec<Directive> {
                     j += 1;
                 }
                 let target = kids.get(j).copied().filter(|t| !tree::is_comment(t.kind()));
+                // Scope (DESIGN.md §8, weaker reading): code expressions, code bodies, math bodies and equations.
+                // Markup-only elements (text, strong/emph, headings, list/enum/term items, links, labels, …) are not
+                // "expressions" in the statement's sense.
                 let in_scope = target
                     .map(|t| {
                         matches!(t.kind(), K::Code | K::Math)
-                            || (is_expr(t) && !matches!(t.kind(), K::Space | K::Parbreak | K::Text | K::Linebreak))
+                            || (is_expr(t)
+                                && !matches!(
+                                    t.kind(),
+                                    K::Space
+                                        | K::Parbreak
+                                        | K::Text
+                                        | K::Linebreak
+                                        | K::Strong
+                                        | K::Emph
+                                        | K::Raw
+                                        | K::Link
+                                        | K::Label
+                                        | K::Ref
+                                        | K::Heading
+                                        | K::ListItem
+                                        | K::EnumItem
+                                        | K::TermItem
+                                        | K::Escape
+                                        | K::Shorthand
+                                        | K::SmartQuote
+                                ))
                     })
                     .unwrap_or(false);
                 out.push(Directive {
@@ -100,7 +123,17 @@ pub fn check(x: &str, px: &SyntaxNode, cfg: Cfg, acc: &mut Acc) -> Result<Option
         }
         let ta = rtrim_lines(a.target.as_deref().unwrap_or(""));
         let tb = rtrim_lines(b.target.as_deref().unwrap_or(""));
-        if ta != tb {
+        // The printer may wrap the (verbatim) node in optional parentheses / braces when the surrounding
+        // expression is laid out on several lines; the node's text is still reproduced character for character.
+        let unwrapped = {
+            let t = tb.trim();
+            if (t.starts_with('(') && t.ends_with(')')) || (t.starts_with('{') && t.ends_with('}')) {
+                Some(t[1..t.len() - 1].trim().to_string())
+            } else {
+                None
+            }
+        };
+        if ta != tb && unwrapped.as_deref() != Some(ta.trim()) {
             return Ok(Some((
                 true,
                 Some(format!(
@@ -286,6 +319,61 @@ pub fn off_pool(bases: Arc<Vec<Base>>) -> MutPool {
             }
             // the injected directive must protect something in scope
             if !directives(&root).iter().any(|d| d.in_scope) {
+                return None;
+            }
+            Some(m)
+        }),
+    }
+}
+
+// ------------------------------------------------------------------------------------------------
+// M-OFF2: a directive before an item that is NOT reproduced verbatim (named / keyed / spread items, parameters,
+// destructuring items: outside C07's scope, the printer formats them as usual) combined with a comment inside
+// that item. The attribute pass does not descend below a directive, so these subtrees are formatted with
+// incomplete attributes: a mechanism of its own for losing comments (C06) or changing the tree (C01, C04).
+
+pub fn off2_sites(root: &SyntaxNode) -> Vec<mutate::NodeRef> {
+    mutate::nodes_with_mode(root)
+        .into_iter()
+        .filter(|n| n.end > n.start + 3 && n.mode == Mode::Code && matches!(n.kind, K::Named | K::Keyed | K::Spread))
+        .collect()
+}
+
+pub fn off2_pool(bases: Arc<Vec<Base>>) -> MutPool {
+    // per base: list of (site, gap offsets inside the site)
+    let plans: Arc<Vec<Vec<(usize, usize, usize)>>> = Arc::new(
+        bases
+            .iter()
+            .map(|b| {
+                let mut v = vec![];
+                for s in off2_sites(&b.root) {
+                    for &g in b.gaps.iter().filter(|&&g| g > s.start && g < s.end) {
+                        v.push((s.start, s.end, g));
+                    }
+                }
+                v
+            })
+            .collect(),
+    );
+    let index: std::collections::HashMap<String, usize> = bases.iter().enumerate().map(|(i, b)| (b.case.origin.clone(), i)).collect();
+    let mut prefix = vec![0usize];
+    for p in plans.iter() {
+        prefix.push(prefix.last().unwrap() + p.len() * mutate::COMMENT_SHAPES);
+    }
+    MutPool {
+        name: "M-OFF2".into(),
+        bases,
+        prefix,
+        f: Box::new(move |b, j| {
+            let bi = *index.get(&b.case.origin)?;
+            let (start, _end, gap) = *plans[bi].get(j / mutate::COMMENT_SHAPES)?;
+            let shape = j % mutate::COMMENT_SHAPES;
+            let text = &b.case.text;
+            // comment first (higher offset), then the directive
+            let with_comment = mutate::insert_comment(text, gap, shape, j);
+            let m = format!("{}/* @typstyle off */ {}", &with_comment[..start], &with_comment[start..]);
+            let root = tree::parse_ok(&m)?;
+            if mutate::count_comments(&root) != mutate::count_comments(&b.root) + 2 {
                 return None;
             }
             Some(m)
